@@ -94,12 +94,26 @@ type c17xIndex struct {
 	order   []*c17xFn         // numbered functions, callees first
 	// the struct types the station prints as JSON summaries → their string-valued fields (string, []string)
 	summaryTypes map[string]map[string]bool
+	methods      map[string]map[string]bool // dir + "." + type → names of its methods
+	ifaces       map[string][]string        // dir + "." + interface type of this repository → its methods
+}
+
+// method sets of interfaces of other modules that station code holds values of this repository's types in
+var c17xExtIfaces = map[string][]string{
+	"net.Conn":           {"Read", "Write", "Close", "LocalAddr", "RemoteAddr", "SetDeadline", "SetReadDeadline", "SetWriteDeadline"},
+	"net.PacketConn":     {"ReadFrom", "WriteTo", "Close", "LocalAddr", "SetDeadline", "SetReadDeadline", "SetWriteDeadline"},
+	"net.Listener":       {"Accept", "Close", "Addr"},
+	"io.ReadWriteCloser": {"Read", "Write", "Close"},
+	"io.ReadCloser":      {"Read", "Close"},
+	"io.WriteCloser":     {"Write", "Close"},
+	"io.ReadWriter":      {"Read", "Write"},
 }
 
 var c17xSummaryTypeNames = map[string]bool{"tunnelStats": true, "regExpireLogMsg": true}
 
 func c17xLoad(root string) (*c17xIndex, error) {
-	ix := &c17xIndex{byName: map[string][]*c17xFn{}, pkgName: map[string]string{}, globals: map[string]map[string]ast.Expr{}}
+	ix := &c17xIndex{byName: map[string][]*c17xFn{}, pkgName: map[string]string{}, globals: map[string]map[string]ast.Expr{},
+		methods: map[string]map[string]bool{}, ifaces: map[string][]string{}}
 	seen := map[string]bool{}
 	siteFiles, err := c17xFiles(root)
 	if err != nil {
@@ -181,6 +195,23 @@ func c17xLoad(root string) (*c17xIndex, error) {
 		for _, d := range f.ast.Decls {
 			switch x := d.(type) {
 			case *ast.GenDecl:
+				if x.Tok == token.TYPE {
+					for _, sp := range x.Specs {
+						ts := sp.(*ast.TypeSpec)
+						if it, ok := ts.Type.(*ast.InterfaceType); ok {
+							var ms []string
+							for _, m := range it.Methods.List {
+								for _, nm := range m.Names {
+									ms = append(ms, nm.Name)
+								}
+								if len(m.Names) == 0 { // embedded interface: its methods when it is one of the known ones
+									ms = append(ms, c17xExtIfaces[c17xText(f.fset, m.Type)]...)
+								}
+							}
+							ix.ifaces[f.dir+"."+ts.Name.Name] = ms
+						}
+					}
+				}
 				if x.Tok == token.TYPE && f.dir == "pkg/station/lib" {
 					for _, sp := range x.Specs {
 						ts := sp.(*ast.TypeSpec)
@@ -267,6 +298,13 @@ func c17xLoad(root string) (*c17xIndex, error) {
 					fn.key = f.dir + "." + fn.recv + "." + x.Name.Name
 				}
 				fn.collect(x.Body)
+				if fn.recv != "" {
+					k := fn.dir + "." + fn.recv
+					if ix.methods[k] == nil {
+						ix.methods[k] = map[string]bool{}
+					}
+					ix.methods[k][x.Name.Name] = true
+				}
 				ix.fns = append(ix.fns, fn)
 				ix.byName[x.Name.Name] = append(ix.byName[x.Name.Name], fn)
 			}
@@ -356,12 +394,34 @@ func (ix *c17xIndex) resolveOpen(fn *c17xFn, call *ast.CallExpr) (out []*c17xFn,
 				}
 			}
 		}
+		// an interface value: only types that have all the methods of the interface can be in it
+		var need []string
+		if id, ok := fun.X.(*ast.Ident); ok {
+			if t, ok := fn.ptypes[id.Name]; ok && !strings.HasPrefix(t, "*") {
+				if ms, ok := c17xExtIfaces[t]; ok {
+					need = ms
+				} else if i := strings.Index(t, "."); i >= 0 {
+					if dir, known := fn.file.imports[t[:i]]; known && dir != "" {
+						need = ix.ifaces[dir+"."+t[i+1:]]
+					}
+				} else {
+					need = ix.ifaces[fn.dir+"."+t]
+				}
+			}
+		}
 		for _, c := range ix.byName[fun.Sel.Name] {
-			if c.recv != "" {
+			if c.recv == "" {
+				continue
+			}
+			has := true
+			for _, m := range need {
+				has = has && ix.methods[c.dir+"."+c.recv][m]
+			}
+			if has {
 				out = append(out, c)
 			}
 		}
-		return out, len(out) > 0
+		return out, true
 	}
 	return out, false
 }
